@@ -203,8 +203,13 @@ def run_gtal(ck):
     cases = gtal_cases(ck)
     model = drv("c11", "".join("gtal %d %d\n" % c for c in cases))
     mism, viol = [], []
+    hangs = 0
     for (o, n), m in zip(cases, model):
-        rc, out, err = sh([exe, str(o), str(n)], timeout=300)
+        if hangs >= 2:
+            break          # a broken tree can hang on every large case: two hangs are evidence enough
+        rc, out, err = sh([exe, str(o), str(n)], timeout=90)
+        if rc == -9:
+            hangs += 1
         r = dict(kv.split("=") for kv in out.split()) if rc == 0 and out else {"grew": "crash rc=%d" % rc}
         ck.count(1, ("gtal", o < n, o >= 1 << 31, n >= 1 << 31, n >= 1 << 32, r.get("grew")))
         expect = "1" if o < n else "0"
